@@ -172,6 +172,9 @@ class FullWorld(wire.World):
     def on_client_close(self, c):
         pass
 
+    def expect_wire_violation(self, c, e):
+        return False
+
     def success_node(self):
         return Node("success", {"t": "1700000000", "props": "4", "location": "atn", "creation": "1500000000"})
 
@@ -204,7 +207,8 @@ class FullWorld(wire.World):
                     try:
                         c.r.feed(data)
                     except ProtocolViolation as e:
-                        self.violate("wire/%s" % _slug(str(e)), "connection %d: %s" % (c.no, e))
+                        if not self.expect_wire_violation(c, e):
+                            self.violate("wire/%s" % _slug(str(e)), "connection %d: %s" % (c.no, e))
                         c.close()
                         continue
                     if stage0 in ("prologue", "hello") and c.r.stage not in ("prologue", "hello"):
